@@ -112,5 +112,49 @@ transaction { prepare(acct: auth(Storage) &Account) { acct.storage.save([C.mk()]
 			HandVals:  []string{"(VArr [(VComp [$C$;$S$] [$a$] [(VPrim 1)])])"},
 			HandNames: []string{"S", "a"},
 		},
+		{
+			// update history: v1 declares S (a: Int) and a value is stored; v2 removes S with
+			// #removedType(S); v3 keeps the pragma and declares a different S (a: String).
+			// v3 must be rejected (the tombstone outlives the version that removed the type);
+			// were it accepted, the stored C.S would be read with the wrong field type.
+			Hand: true,
+			OldSrc: `access(all) contract C {
+    access(all) struct S { access(all) var a: Int; init() { self.a = 1 } }
+    access(all) fun mk(): S { return S() }
+}`,
+			Setup: `import C from 0x1
+transaction { prepare(acct: auth(Storage) &Account) { acct.storage.save([C.mk()], to: /storage/ss) } }`,
+			Roots: []root{{Name: "ss"}},
+			Steps: []*step{
+				{
+					Label: []string{lblPragma + ":struct"}, ByDesign: true,
+					NewSrc: `access(all) contract C {
+    #removedType(S)
+}`,
+					Scripts: []string{`access(all) fun main(): [String] {
+    let ss = getAuthAccount<auth(Storage) &Account>(0x1).storage.copy<[AnyStruct]>(from: /storage/ss)!
+    return [ss.length.toString()]
+}`},
+					Expected: [][]string{{"1"}},
+				},
+				{
+					Label: []string{"reintroduce-removed:different-fields"},
+					NewSrc: `access(all) contract C {
+    #removedType(S)
+    access(all) struct S { access(all) var a: String; init() { self.a = "" } }
+}`,
+					Scripts: []string{`import C from 0x1
+access(all) fun main(): [String] {
+    let ss = getAuthAccount<auth(Storage) &Account>(0x1).storage.copy<[AnyStruct]>(from: /storage/ss)!
+    let s = ss[0] as! C.S
+    let a: String = s.a
+    return [a]
+}`},
+					Expected: [][]string{{"1"}},
+				},
+			},
+			HandVals:  []string{"(VArr [(VComp [$C$;$S$] [$a$] [(VPrim 1)])])"},
+			HandNames: []string{"S", "a"},
+		},
 	}
 }
